@@ -130,11 +130,26 @@ HARNESSES += [
        'every string of length 0..NMAX over {space a newline tab}', q=5, t=8),
 ]
 
+# ---- CPPExpression::evaluate: totality is part of what the C07 harnesses decide (crash: assertions, division checks) ----
+from cat import c07 as _c07
+for _h in _c07.HARNESSES:
+    if _h['src'] == 'c07_evaluate.cxx':
+        HARNESSES.append(dict(_h, id='c15_eval_' + _h['id'][4:], property='C15',
+                              desc='(C07 harness %s, run for its totality content) %s' % (_h['id'], _h['desc']),
+                              oracle='no abort() on any operator, no division trap, no memory-safety failure (plus the C07 value oracle)'))
+
 PROPERTY_INFO = {'C15': {'level': 'model_checking',
          'explanation': 'bounded symbolic execution (CBMC, memory-safety and unwinding assertions on, libstdc++ assertions on) of the hand-written '
                         'scanners of the front end on every short input over small alphabets',
          'outside': 'totality of the bison parser and of the token loop as a whole; files longer than the bounds; unbounded-time claims; '
-                    'show_line (needs std::ifstream/getline); the exit-status clause (C19)',
-         'assumptions': ['strings stay within the 15-byte small-string buffer inside the bounds (the heap path is cut and asserted unreachable)']}}
+                    'get_number / get_literal (strtol, pstrtod and the CPPToken machinery), get_identifier, expand_defined_function / '
+                    'expand_has_include_function; save_expansion and r_expand on symbolic bodies (nested scanners: over budget; the constructors '
+                    'are decided with save_expansion stubbed); InterrogateBuilder::read_command_file and show_line (std::getline / std::ifstream '
+                    'are not modelled); CPPPreprocessor::get/peek/InputFile::get themselves (the scanner harnesses model them for one non-nested '
+                    'input)',
+         'assumptions': ['strings stay within the 15-byte small-string buffer inside the bounds (the heap path is cut and asserted unreachable)',
+                         'vector growth in cppManifest.cxx is replaced by harness/c08_fixedvec.h (fixed capacity 8, overflow asserted)',
+                         'scanner harnesses: CPPPreprocessor::get/peek replaced by a model of one non-nested input (unget slot, bytes, one '
+                         'synthesized newline, EOF)']}}
 
 NOT_APPLICABLE = {}
